@@ -636,3 +636,171 @@ func vLeftovers() []string {
 func tlsCertWithLeaf(leaf *x509.Certificate) tls.Certificate {
 	return tls.Certificate{Certificate: [][]byte{{0}}, Leaf: leaf}
 }
+
+// ---------------------------------------------------------------- recording wrapper
+
+// vRec wraps any Storage (e.g. a real FileStorage) and gives it what vMem has for the
+// harnesses: an operation log with request tags and sequence numbers taken at the
+// operation's linearisation point, fault injection and pause hooks. Operations other than
+// Lock are serialised by a mutex so that the order of sequence numbers is the order in
+// which the back end saw them; Lock takes its number once it has returned, Unlock before
+// it removes the lock.
+type vRec struct {
+	S       Storage
+	mu      sync.Mutex
+	opMu    sync.Mutex
+	ops     []vOp
+	n       int
+	Fault   func(n int, kind, key string) error
+	OnOpCtx func(ctx context.Context, n int, kind, key string)
+}
+
+func (r *vRec) String() string { return "vRec" }
+
+func (r *vRec) begin(ctx context.Context, kind, key string) (int, error) {
+	r.mu.Lock()
+	r.n++
+	n := r.n
+	f, on := r.Fault, r.OnOpCtx
+	r.mu.Unlock()
+	if on != nil {
+		on(ctx, n, kind, key)
+	}
+	if f != nil {
+		if err := f(n, kind, key); err != nil {
+			r.rec(ctx, n, kind, key, "err", vSeq())
+			return n, err
+		}
+	}
+	return n, nil
+}
+
+func (r *vRec) rec(ctx context.Context, n int, kind, key, out string, seq int64) {
+	r.mu.Lock()
+	r.ops = append(r.ops, vOp{N: n, Kind: kind, Key: key, Out: out, Seq: seq, Req: vReqOf(ctx)})
+	r.mu.Unlock()
+}
+
+func (r *vRec) Ops() []vOp {
+	r.mu.Lock()
+	defer r.mu.Unlock()
+	return append([]vOp(nil), r.ops...)
+}
+
+func vOutOf(err error) string {
+	switch {
+	case err == nil:
+		return "ok"
+	case errors.Is(err, fs.ErrNotExist):
+		return "notexist"
+	case errors.Is(err, context.Canceled):
+		return "cancel"
+	}
+	return "err"
+}
+
+func (r *vRec) Store(ctx context.Context, key string, value []byte) error {
+	n, err := r.begin(ctx, "Store", key)
+	if err != nil {
+		return err
+	}
+	r.opMu.Lock()
+	err = r.S.Store(ctx, key, value)
+	seq := vSeq()
+	r.opMu.Unlock()
+	r.rec(ctx, n, "Store", key, vOutOf(err), seq)
+	return err
+}
+
+func (r *vRec) Load(ctx context.Context, key string) ([]byte, error) {
+	n, err := r.begin(ctx, "Load", key)
+	if err != nil {
+		return nil, err
+	}
+	r.opMu.Lock()
+	v, err := r.S.Load(ctx, key)
+	seq := vSeq()
+	r.opMu.Unlock()
+	r.rec(ctx, n, "Load", key, vOutOf(err), seq)
+	return v, err
+}
+
+func (r *vRec) Delete(ctx context.Context, key string) error {
+	n, err := r.begin(ctx, "Delete", key)
+	if err != nil {
+		return err
+	}
+	r.opMu.Lock()
+	err = r.S.Delete(ctx, key)
+	seq := vSeq()
+	r.opMu.Unlock()
+	r.rec(ctx, n, "Delete", key, vOutOf(err), seq)
+	return err
+}
+
+func (r *vRec) Exists(ctx context.Context, key string) bool {
+	n, err := r.begin(ctx, "Exists", key)
+	if err != nil {
+		return false
+	}
+	r.opMu.Lock()
+	ok := r.S.Exists(ctx, key)
+	seq := vSeq()
+	r.opMu.Unlock()
+	r.rec(ctx, n, "Exists", key, fmt.Sprint(ok), seq)
+	return ok
+}
+
+func (r *vRec) List(ctx context.Context, prefix string, recursive bool) ([]string, error) {
+	n, err := r.begin(ctx, "List", prefix)
+	if err != nil {
+		return nil, err
+	}
+	r.opMu.Lock()
+	l, err := r.S.List(ctx, prefix, recursive)
+	seq := vSeq()
+	r.opMu.Unlock()
+	r.rec(ctx, n, "List", prefix, vOutOf(err), seq)
+	return l, err
+}
+
+func (r *vRec) Stat(ctx context.Context, key string) (KeyInfo, error) {
+	n, err := r.begin(ctx, "Stat", key)
+	if err != nil {
+		return KeyInfo{}, err
+	}
+	r.opMu.Lock()
+	ki, err := r.S.Stat(ctx, key)
+	seq := vSeq()
+	r.opMu.Unlock()
+	r.rec(ctx, n, "Stat", key, vOutOf(err), seq)
+	return ki, err
+}
+
+func (r *vRec) Lock(ctx context.Context, name string) error {
+	n, err := r.begin(ctx, "Lock", name)
+	if err != nil {
+		return err
+	}
+	err = r.S.Lock(ctx, name)
+	r.opMu.Lock()
+	seq := vSeq()
+	r.opMu.Unlock()
+	r.rec(ctx, n, "Lock", name, vOutOf(err), seq)
+	return err
+}
+
+func (r *vRec) Unlock(ctx context.Context, name string) error {
+	n, err := r.begin(ctx, "Unlock", name)
+	if err != nil {
+		return err
+	}
+	r.opMu.Lock()
+	seq := vSeq()
+	err = r.S.Unlock(ctx, name)
+	r.opMu.Unlock()
+	r.rec(ctx, n, "Unlock", name, vOutOf(err), seq)
+	return err
+}
+
+var _ Storage = (*vRec)(nil)
